@@ -5,6 +5,7 @@ import Driver.Load
 import Driver.Report
 import Driver.Labels
 import Driver.Coproc
+import Driver.CaseRepo
 /-
   Driver: one request per line on stdin, one answer per line on stdout.
   Unknown or malformed lines answer `bad` (never a default).
@@ -20,6 +21,7 @@ def handle (line : String) : String :=
   else if l.startsWith "load " then handleLoad l
   else if l.startsWith "report " then handleReport l
   else if l.startsWith "coproc " then handleCoproc l
+  else if l.startsWith "repo " then handleRepo l
   else if l.startsWith "label " then handleLabel l
   else if l.startsWith "labelfile " then handleLabelFile l
   else if l.startsWith "idx " then handleIdx l
